@@ -1,2 +1,13 @@
 import Proofs.C06
+#print axioms C06.eval_test
+#print axioms C06.test_out_of_range
+#print axioms C06.all_iff
+#print axioms C06.any_iff
+#print axioms C06.all_any_zero
+#print axioms C06.apply_spec
+#print axioms C06.apply_zero
 #print axioms C06.match_pure
+#print axioms C06.value_list_sugar
+#print axioms C06.fixed_projection_filter
+#print axioms C06.fixed_projection_removes
+#print axioms C06.fixed_projection_keeps
